@@ -232,7 +232,14 @@ NeedsGap(a, b) ==
      \/ a \in {"<", ">"} /\ b = "="
      \/ ca = "dollar" /\ cb \in {"word", "num"}
 
-Gaps(ts) == [j \in 1..(Len(ts) - 1) |-> NeedsGap(ts[j], ts[j + 1])]
+(* What may be written between adjacent tokens a and b:                    *)
+(*   "ws"     something must be: white space or a comment;                 *)
+(*   "slash"  nothing is needed, but a comment may not follow a directly:  *)
+(*            a is `/`, and `/` glued to `/* c */` or `// c` is the start  *)
+(*            of a line comment - a blank goes before such a comment;      *)
+(*   "free"   anything from the decoration set, including nothing.         *)
+GapClass(a, b) == IF NeedsGap(a, b) THEN "ws" ELSE IF a = "/" THEN "slash" ELSE "free"
+Gaps(ts) == [j \in 1..(Len(ts) - 1) |-> GapClass(ts[j], ts[j + 1])]
 
 (* ---------------------------------------------------------------- parser *)
 (* Precedence climbing over a token sequence with the (unmutated) table.   *)
